@@ -85,8 +85,10 @@ def main():
             for rep in "ab":
                 conds.append(("release-t%d%s" % (t, rep), binary, {"RAYON_NUM_THREADS": str(t)}))
     skipped = []
-    if thorough or os.environ.get("VERIF_C19_VARIANTS"):
-        wanted = os.environ.get("VERIF_C19_VARIANTS", "debug,avx2,avx512,seed").split(",")
+    if True:
+        # quick: the other-hash-seed build only (a circuit whose key depends on HashMap iteration order
+        # is invisible inside one binary); thorough: also debug, AVX2 and AVX-512 builds
+        wanted = os.environ.get("VERIF_C19_VARIANTS", "debug,avx2,avx512,seed" if thorough else "seed").split(",")
         flags = cpu_flags()
         if "debug" in wanted:
             dbg = c.build_harness("debug")
